@@ -391,6 +391,13 @@ func TestC10Parallel(t *testing.T) {
 					row := rows[ri]
 					rowLocks[ri].Lock()
 					v := int(atomic.AddInt64(&version, 1))
+					if i%5 == 0 {
+						// a transaction that writes only HALF of the row and then rolls back: nothing of it may ever be visible
+						c.Query(func(txn *column.Txn) error {
+							txn.QueryAt(row, func(r column.Row) error { r.SetInt("a", 1000000+v); return nil })
+							return errRollback
+						})
+					}
 					c.Query(func(txn *column.Txn) error {
 						return txn.QueryAt(row, func(r column.Row) error {
 							if mergeToo && i%2 == 0 {
